@@ -81,6 +81,10 @@ func (c16) Generate(r *sim.Rand, tier string) *sim.Scenario {
 		max *= 3 // long histories
 	}
 	n := r.Range(2, max)
+	long := r.Bool(0.004)
+	if long {
+		n = r.Range(300, 1200) // a long-lived layer: hundreds of forwards, back-propagations, swaps and resets
+	}
 	pSwap := []float64{0.1, 0.3, 0.5}[r.Intn(3)]
 	pBatch1 := []float64{0.2, 0.2, 1}[r.Intn(3)]
 	var pending []int // forward handles not yet back-propagated
